@@ -185,6 +185,9 @@ impl<L: Language, N: Analysis<L>> EGraph<L, N> {
         let psn = self.classes[&i].nodes[&sh].clone();
         let node = sh.apply_slotmap(&psn.elem);
         self.raw_remove_from_class(i, sh.clone());
+        // `update_analysis` above may have re-queued this very shape (a node that refers to its own class);
+        // the shape leaves the hashcons now, its analysis is redone below under the shape it is re-added with.
+        self.pending.remove(&sh);
         let app_i = self.mk_sem_identity_applied_id(i);
 
         let enode = &node;
@@ -227,6 +230,13 @@ impl<L: Language, N: Analysis<L>> EGraph<L, N> {
         let bij = bij.compose(&m);
         let t = (sh, bij);
         self.raw_add_to_class(i.id, t.clone(), src_id);
+
+        // The node was analysed above under its old shape. If it refers to its own class (possibly only
+        // now, through an id that was merged away), the datum it just contributed to is one of its own
+        // inputs: analyse it again under the new shape, which is registered as a usage of the class.
+        if t.0.ids().contains(&i.id) {
+            self.update_analysis(&t.0, i.id);
+        }
 
         self.determine_self_symmetries(src_id);
     }
